@@ -229,6 +229,12 @@ fn foreign_subject() -> BoxedStrategy<FName> {
 					n.0.push(vec![FAttr { oid: vec![2, 5, 4, 3], kind: StrKind::Utf8, text: "a".into(), raw: None }]);
 					n.0.push(vec![FAttr { oid: vec![2, 5, 4, 3], kind: v.kind, text: v.text, raw: None }]);
 				},
+				// the same attribute twice, value and all (OU=Operations, OU=Operations)
+				2 => {
+					let a = FAttr { oid: vec![2, 5, 4, 11], kind: v.kind, text: v.text, raw: None };
+					n.0.insert(0, vec![a.clone()]);
+					n.0.insert(1, vec![a]);
+				},
 				1 => {
 					n.0.push(vec![
 						FAttr { oid: vec![2, 5, 4, 3], kind: v.kind, text: v.text, raw: None },
